@@ -970,7 +970,7 @@ def c10_cases(tier, rng):
                     target = "/t"
                 if target == link:
                     continue
-                for spelling in ["abs", "rel"]:
+                for spelling in ["abs", "rel", "relx"]:
                     cases.append((link, target, tk, spelling))
     if tier == "quick":
         ext = {"/a", "/ab", "/a.b", "/a/ab"}
@@ -990,7 +990,8 @@ def c10_hist(link, target, tk, spelling):
         setup += [op("mkdir_p", posixpath.dirname(target)), op("mkfile", "/zz"), op("symlink", target, "/zz")]
     elif tk == "linkdir":
         setup += [op("mkdir_p", posixpath.dirname(target)), op("mkdir_p", "/zd"), op("symlink", target, "/zd")]
-    tsp = target if spelling == "abs" else posixpath.relpath(target, ld)
+    # "relx": a relative spelling that passes through a name that does not exist ("nosuch/../file"): read lexically, not by the operating system
+    tsp = target if spelling == "abs" else posixpath.relpath(target, ld) if spelling == "rel" else "nosuch/../" + posixpath.relpath(target, ld)
     qs = [op("symlink", link, tsp), op("readlink_abs", link), op("readlink", link), op("is_symlink", link), op("is_file", link), op("is_dir", link),
           op("is_symlink_dir", link), op("is_symlink_file", link), op("readlink", target), op("readlink_abs", ld)]
     return setup, qs, tsp
